@@ -1,22 +1,28 @@
 package c05
 
 // C05 — authorization. A two-node chain (proposer + validating replica) whose genesis holds, for every key type
-// (ed25519, secp256k1, eth-secp256k1, BLS, 2-of-3 BLS multisig), a VICTIM (account, sell order, non-custodial validator
-// whose output address is the victim) whose keys never sign after setup, an ACTOR that lives an honest story (send,
-// subsidy, orders, DEX, stake, edit-stake by operator and by output, output hand-over, pause / unpause / unstake,
-// governance, certificate results), and a STRANGER. Every round offers hundreds of candidate transactions: validly signed
-// content that names somebody else's record, honest transactions of the actor mutated after signing (every signed field,
-// payload fields, claimed owner, payload type, lifted signatures, replaced public keys), multisig sub-threshold / forged
-// bitmap / re-declared threshold variants, and Ethereum RLP / RLP.V2 wrappers that do not re-derive. Each candidate goes
-// (a) alone through FSM.CheckTx, (b) into a block with good neighbours (batch verifier, cold signature cache), (c) again
-// into the next block (warm cache), (d) into a block with bad ed25519 signatures (batch failure fallback), and one of them
-// per block is spliced into the honest proposal and shown to the replica's ValidateProposal.
+// (ed25519, secp256k1, eth-secp256k1, BLS, k-of-n BLS multisig with a per-case shape 2/3, 3/4, 2/2 or 3/5), a VICTIM
+// (account, sell order, non-custodial validator whose output address is the victim; plus a custodial validator) whose keys
+// never sign after the setup block, an ACTOR that lives an honest story, one step per block (send, subsidy, orders, DEX,
+// stake signed by the output and by the operator, edit-stake by operator and by output, output hand-over, pause / unpause
+// / unstake, approved and unapproved governance proposals, certificate results that lock and close orders, the same through
+// Ethereum RLP / RLP.V2 wrappers), and a STRANGER. Every round offers ~1000 forged candidates: validly signed content
+// that names somebody else's record (also with the owner's public key on the wire, with degenerate keys, with an address
+// prefix twin, with the previous output address), honest transactions of the actor mutated after signing (every signed
+// transaction field, payload fields, claimed owner, payload type with identical bytes, lifted signature, replaced public
+// key), state-machine-owned fields supplied on the wire (signer, order id, proposal hash), multisig sub-threshold / forged
+// bitmap / re-declared threshold / subset / superset keys, wrappers that do not re-derive from the signed ethereum
+// transaction. Each forged candidate goes (a) alone through FSM.CheckTx, (b) into a block with good neighbours (batch
+// verifier, cold signature cache), (c) again into the next block (warm cache), (d) into a block with bad ed25519
+// signatures (batch failure fallback); one per block is spliced into the proposal and shown to the replica.
 //
-// Oracles: a reference authorised(msg, signer, state) written from the property statement decides for every transaction
-// that appears in a committed block whether the key(s) that REALLY signed exactly that content (the harness ledger, not
-// the wire) may cause it; and the raw state before / after every block is diffed against the entitlements of the
-// legitimately signed transactions in it: no account, pool, stake, validator or order record may be debited or
-// redirected beyond them.
+// Oracles: (1) the reference refAuthorised(msg, signer, state) (state_test.go), written from the property statement,
+// decides for every transaction the proposer put into its block - walking the block in order, advancing the reference's
+// own view of validators' outputs and orders' sellers - whether the key(s) that REALLY signed exactly that content (the
+// harness ledger, not the wire) may cause it; (2) CheckTx alone must not accept a candidate whose real signer is not
+// entitled; (3) the raw state before / after every committed block is diffed against the entitlements of the legitimately
+// signed transactions in it: no account, pool, stake, validator, order, parameter or dex-batch record may be debited,
+// redirected or created beyond them. An honest step that is not included makes the run inconclusive.
 
 import (
 	"encoding/json"
@@ -75,6 +81,7 @@ type env struct {
 
 	victim, actor, actor2, stranger map[string]*party
 	vVal, hVal                      map[string]*valRef // validators whose output is victim[k] / actor[k]
+	selfOp                          map[string]*party  // funded BLS keys that stake themselves in the story
 	custV, custH                    *party
 	com2                            []*party
 	nb                              map[string]*party
@@ -382,6 +389,13 @@ func (e *env) forge(mt, k string) []*cand {
 		tx.Signature.PublicKey = append([]byte{4}, tx.Signature.PublicKey...)
 		out = append(out, approve(e.mk(mt, k, "stranger", "public-key-65-byte-encoding", tx, str.addr())))
 	}
+	// the custodial validator: only its operator speaks for it
+	switch mt {
+	case fsm.MessageEditStakeName, fsm.MessageUnstakeName, fsm.MessagePauseName, fsm.MessageUnpauseName:
+		tx := e.newTx(e.content(mt, target{acct: e.custV, val: e.custV.addr(), attack: true}, str), "")
+		signTx(tx, str)
+		out = append(out, e.mk(mt, k, "stranger", "custodial-validator", tx, str.addr()))
+	}
 	// validator operations: the operator may not move the output address
 	if mt == fsm.MessageEditStakeName && k == kBLS {
 		op := e.vVal[vk].op
@@ -418,6 +432,21 @@ func (e *env) forge(mt, k string) []*cand {
 		tx := e.newTx(m, "")
 		signTx(tx, str)
 		out = append(out, e.mk(mt, k, "owner", "special-field-prefilled", tx, str.addr()))
+	case fsm.MessageDexLimitOrderName, fsm.MessageDexLiquidityDepositName, fsm.MessageDexLiquidityWithdrawName:
+		// the order id (derived from the transaction hash by the state machine) supplied on the wire as the stranger's address
+		tx := e.newTx(e.content(mt, vt, str), "")
+		m0, _ := lib.FromAny(tx.Msg)
+		switch m := m0.(type) {
+		case *fsm.MessageDexLimitOrder:
+			m.OrderId = str.addr()
+		case *fsm.MessageDexLiquidityDeposit:
+			m.OrderId = str.addr()
+		case *fsm.MessageDexLiquidityWithdraw:
+			m.OrderId = str.addr()
+		}
+		tx.Msg, _ = lib.NewAny(m0)
+		signTx(tx, str)
+		out = append(out, e.mk(mt, k, "stranger", "special-field-prefilled", tx, str.addr()))
 	case fsm.MessageChangeParameterName:
 		if e.approvedHash != "" {
 			// a proposal nobody approved, carrying the hash of one that was
@@ -1142,20 +1171,11 @@ func (e *env) cacheProbes() {
 	crypto.SignatureCache.Reset()
 }
 
-func kindIndex(k string) int {
-	for i, x := range []string{kEd, kSecp, kEth, kBLS, kMulti, kRLP, kRLP2} {
-		if x == k {
-			return i
-		}
-	}
-	return 0
-}
-
 // ---------------------------------------------------------------------------------------------------------------------
 
 func (e *env) setup(idx int) {
 	e.victim, e.actor, e.actor2, e.stranger = map[string]*party{}, map[string]*party{}, map[string]*party{}, map[string]*party{}
-	e.vVal, e.hVal, e.nb = map[string]*valRef{}, map[string]*valRef{}, map[string]*party{}
+	e.vVal, e.hVal, e.nb, e.selfOp = map[string]*valRef{}, map[string]*valRef{}, map[string]*party{}, map[string]*party{}
 	e.vOrder, e.keepOrder, e.aOrder, e.bOrder, e.orderAmt = map[string][]byte{}, map[string][]byte{}, map[string][]byte{}, map[string][]byte{}, map[string]uint64{}
 	e.byHash, e.tuples = map[string]*cand{}, map[string]int{}
 	const funds = 50_000_000_000_000
@@ -1188,6 +1208,7 @@ func (e *env) setup(idx int) {
 		e.victim[k], e.actor[k], e.actor2[k], e.stranger[k] = fund(newParty(k, tag+"/victim")), fund(newParty(k, tag+"/actor")), fund(newParty(k, tag+"/actor2")), fund(newParty(k, tag+"/stranger"))
 		e.vVal[k] = &valRef{op: fund(newParty(kBLS, tag+"/vop/"+k)), out: e.victim[k]}
 		e.hVal[k] = &valRef{op: fund(newParty(kBLS, tag+"/hop/"+k)), out: e.actor[k]}
+		e.selfOp[k] = fund(newParty(kBLS, tag+"/selfop/"+k))
 		val(e.vVal[k].op, e.victim[k].addr(), []uint64{2}, 1_000_100+uint64(i))
 		val(e.hVal[k].op, e.actor[k].addr(), []uint64{2}, 1_000_200+uint64(i))
 	}
@@ -1265,6 +1286,11 @@ func (e *env) story(r int) []*cand {
 			e.bOrder[k] = must(e.honest(fsm.MessageCreateOrderName, a, "owner", e.content(fsm.MessageCreateOrderName, own, nil))).hashBytes()[:20]
 			// a new validator funded and signed by its output address
 			must(e.honest(fsm.MessageStakeName, a, "output", e.content(fsm.MessageStakeName, own, nil)))
+			// a new validator funded and signed by its operator key, rewards to the actor
+			so := e.selfOp[k]
+			sm := e.content(fsm.MessageStakeName, own, nil).(*fsm.MessageStake)
+			sm.PublicKey = so.key.PublicKey().Bytes()
+			must(e.honest(fsm.MessageStakeName, so, "operator", sm))
 		case 1:
 			m := e.content(fsm.MessageEditOrderName, target{acct: a, order: e.aOrder[k]}, nil).(*fsm.MessageEditOrder)
 			m.AmountForSale = e.orderAmt[string(e.aOrder[k])] + e.uniq()
